@@ -30,6 +30,23 @@ type preparedCall struct {
 }
 
 func (x *Unit) evalCall(st *State, call *ast.CallExpr, n int) []Val {
+	res := x.evalCall1(st, call, n)
+	// remember the results of the latest call of this callee text: result_of(f, i) in contracts
+	if len(res) > 0 && x.inSpec == 0 {
+		ft := x.srcOf(call.Fun)
+		for i, r := range res {
+			k := fmt.Sprintf("res:%s:%d", ft, i)
+			if _, ok := x.entry.ghost[k]; !ok {
+				g := Val{x.fresh("res0", r.Sort), r.Typ}
+				x.entry.ghost[k] = g
+			}
+			st.ghost[k] = r
+		}
+	}
+	return res
+}
+
+func (x *Unit) evalCall1(st *State, call *ast.CallExpr, n int) []Val {
 	fun := ast.Unparen(call.Fun)
 	// conversion
 	if tv, ok := x.info.Types[fun]; ok && tv.IsType() {
@@ -512,6 +529,13 @@ func (x *Unit) invoke(st *State, pc *preparedCall, n int) []Val {
 	call := pc.call
 	// direct literal
 	if pc.lit != nil {
+		// a directly called literal with its own (non-inline) contract block is used through that contract
+		if b := x.eng.blockFor(x.pkg.PkgPath, x.litKey(pc.lit)); b != nil && !b.Flags["inline"] && x.block != b {
+			x.calleesUsed[x.pkg.PkgPath+"."+b.Key] = true
+			x.litScope = pc.lit
+			defer func() { x.litScope = nil }()
+			return x.applyContract(st, b, pc, "self")
+		}
 		return x.inlineLit(st, pc.lit, x, pc.args, call)
 	}
 	if pc.funVal != nil {
@@ -896,6 +920,11 @@ func (x *Unit) applyContract(st *State, b *Block, pc *preparedCall, recvName str
 	}
 	pre := st.clone()
 	c := &specCtx{names: names, old: pre, pkg: pkg, what: b.Key}
+	if x.litScope != nil {
+		// captured variables of the enclosing function are visible to the literal's contract
+		c.scope = x.pkg.Types.Scope().Innermost(x.litScope.Body.Lbrace + 1)
+		c.pos = x.litScope.Body.Lbrace + 1
+	}
 	savedSpec := st.spec
 	st.spec = map[string]Val{}
 	pre.spec = st.spec
@@ -1008,7 +1037,15 @@ func (x *Unit) applyContract(st *State, b *Block, pc *preparedCall, recvName str
 		x.assume(st, Eq(results[0].T, r))
 	}
 	for _, cl := range b.ClausesOf("let") {
-		names[cl.GhostName] = x.specEval(st, cl.Expr, c)
+		x.letWitness++
+		v := x.specEval(st, cl.Expr, c)
+		x.letWitness--
+		names[cl.GhostName] = v
+		k := fmt.Sprintf("let:%s:%s", x.srcOf(pc.call.Fun), cl.GhostName)
+		if _, ok := x.entry.ghost[k]; !ok {
+			x.entry.ghost[k] = Val{x.fresh("let0", v.Sort), v.Typ}
+		}
+		st.ghost[k] = v
 	}
 	for _, cl := range b.ClausesOf("ensures") {
 		x.assume(st, x.specEval(st, cl.Expr, c).T)
